@@ -488,7 +488,9 @@ def extract(prop_id, driver, extra_ml=(), prelude=()):
     vs = [os.path.join(COQ, f) for f in coq_files()] + [ev, os.path.join(VERIF, "ocaml", driver)] + \
          [os.path.join(VERIF, "ocaml", m) for m in list(extra_ml) + list(prelude)]
     h = file_hash(vs)
-    d = os.path.join(BUILD, "extract", prop_id + _ALT)
+    # one directory per (building check tree, extracted property): a check that reuses another
+    # property's extraction (C06/C18 use C01's) must not wipe the driver of a concurrent run
+    d = os.path.join(BUILD, "extract", os.path.basename(COQ) + "--" + prop_id)
     exe = os.path.join(d, "drv-" + h)
     if os.path.exists(exe):
         return exe
